@@ -1,5 +1,5 @@
 import CotengraVerif.Driver.Util
-import CotengraVerif.Model.Bmm
+import CotengraVerif.Model.PlanOK
 
 namespace Cotengra.Driver.C11
 open Lean Cotengra Cotengra.Driver Cotengra.FA Cotengra.Bmm
@@ -72,6 +72,21 @@ def plans : Handler := fun j => do
     | _ => throw "expected [shape_a, shape_b]"
   pure (jObj [("plans", jArr rows)])
 
+/-- op `c11.planok`: run the verified checker `planOK` on given (real) plans, one per shape pair -/
+def planok : Handler := fun j => do
+  let aT ← natList (← field j "a")
+  let bT ← natList (← field j "b")
+  let out ← natList (← field j "out")
+  let cases ← arrOf (← field j "cases")
+  let rows ← cases.mapM fun c => do
+    let shA ← natList (← field c "shape_a")
+    let shB ← natList (← field c "shape_b")
+    match c.getObjVal? "plan" with
+    | .ok .null => pure Json.null
+    | .ok pj => do pure (jBool (planOK aT bT out shA shB (← planOfJson pj)))
+    | .error _ => pure Json.null
+  pure (jObj [("ok", jArr rows)])
+
 /-- op `c11.eval2`: evaluate a plan (the model's, or a given real one) and the reference -/
 def eval2 : Handler := fun j => do
   let aT ← natList (← field j "a")
@@ -132,7 +147,7 @@ def tdeq : Handler := fun j => do
                 ("fixed", jOpt jPlan (parseBmm true a b o shA shB))])
 
 def handlers : List (String × Handler) :=
-  [("c11.plans", plans), ("c11.eval2", eval2), ("c11.single", single),
+  [("c11.plans", plans), ("c11.planok", planok), ("c11.eval2", eval2), ("c11.single", single),
    ("c11.sanitize", sanitizeOp), ("c11.tdeq", tdeq)]
 
 end Cotengra.Driver.C11
